@@ -178,6 +178,33 @@ def events {σ : Type} (g : Gen σ) (c : Comp) (nAnt : Nat) (triggers : Triggers
     let rs := events g c nAnt triggers hasWriter n r.2
     (r.1 :: rs.1, rs.2)
 
+/-! ## identity layer: the objects `event()` creates itself
+
+Allocation-level view of one call: every object the kernel constructs gets the next unused id —
+the `ray_paths[i]` and `polarizations[i]` lists (`2·nAnt`, built at the start of every call), and per ray
+solution one polarisation array (`normalize(...)` returns a new array) and, when the pulse is cut, one
+`EmptySignal(self.signal_times + path.tof)` (a new signal on a new times array).  `cuts` lists, in
+processing order, whether each ray solution of the event was cut. -/
+structure Heap where
+  next    : Nat
+  ids     : List Nat        -- every object created so far by this kernel (all events)
+deriving Repr
+
+def Heap.alloc (h : Heap) : Heap := { next := h.next + 1, ids := h.ids ++ [h.next] }
+
+def allocN : Nat → Heap → Heap
+  | 0, h => h
+  | n+1, h => allocN n h.alloc
+
+/-- per solution: the polarisation array, then the empty signal if the pulse is cut -/
+def allocPath (h : Heap) (cut : Bool) : Heap := if cut then h.alloc.alloc else h.alloc
+
+def eventHeap (h : Heap) (nAnt : Nat) (cuts : List Bool) : Heap :=
+  cuts.foldl allocPath (allocN (2 * nAnt) h)
+
+/-- nothing is used twice and everything recorded is older than the next id -/
+def Heap.WF (h : Heap) : Prop := h.ids.Nodup ∧ ∀ x ∈ h.ids, x < h.next
+
 /-! ## interface tables (the data is regenerated from the source into `Gen/Interfaces.lean`) -/
 
 /-- signature of a Python callable (without `self`) -/
